@@ -115,6 +115,10 @@ func connLine(bk, body, hdr string, done0 bool, hist []string) string {
 	if len(hist) > 0 {
 		h = strings.Join(hist, ";")
 	}
+	if !done0 && (len(h)+len(body)+len(bk))%5 == 2 {
+		// an earlier Connect call on the same Connection, ended by the validator at its first attempt
+		hdr += "+w"
+	}
 	return fmt.Sprintf("CONN %s %s %s %s %s %s", bk, defaultsArg(), body, hdr, b01(done0), h)
 }
 
